@@ -261,7 +261,7 @@ def gen_c03(rng, tier):
     n = {"quick": 160, "full": 320, "thorough": 2000, "search": 300}[tier]
     cases = []
     for i in range(n):
-        k = i % 5
+        k = i % 6
         if k == 0:
             cases.append(fill_steal_fill(rng))
         elif k == 1:
@@ -270,8 +270,12 @@ def gen_c03(rng, tier):
             cases.append(overflow_chain(rng))
         elif k == 3:
             cases.append(random_history(rng, rng.randint(1, 25), caps=[0, 1, 2]))
-        else:
+        elif k == 4:
             cases.append(random_history(rng, rng.randint(5, 40)))
+        else:
+            # long pop runs with items both in the shared queue and in the local rings: the 61st pop
+            # consults the shared queue first and must not lose what the local ring holds
+            cases.append(starvation(rng) if i % 12 == 5 else thief_starvation(rng))
     return cases
 
 
